@@ -11,13 +11,17 @@ from .paths import Engine, Rule, path_of
 META = {
     'explanation': 'E-PATH typestate rules over TimeZone.h/.cpp, ZoneProcessorCache.h, both zone processors and '
                    'ZoneSpecifier.init_for_year: every use of a shared processor is preceded on all paths by the '
-                   'rebinding call; the cache returns a processor bound to the request (its round-robin index by E-ABS); the cache-valid flag is '
+                   'rebinding call; ZoneProcessorCacheImpl::getZoneProcessor interpreted (E-SEQ, typed) on every request sequence of up to SIZE + 3 '
+                   'requests over SIZE + 1 zones (up to renaming): each answer is a slot bound to the requested zone; the cache-valid flag is '
                    'assigned on every path that overwrites key or content; E-GNF: the key stored by init() is the value '
-                   'isFilled() was asked about and the fill helpers get the same year; ast def-use: init_for_year resets '
+                   'isFilled() was asked about and the fill helpers get the same year; who-may-write: the mutable members of a processor are written '
+                   'only by init() and its helpers, setZoneInfo() and the constructors, unless both invalidating events reset them (R4-writers); '
+                   'ast def-use: init_for_year resets '
                    'everything its helpers accumulate into; createAbbreviation terminates the pooled buffer at the copied length.',
     'decided': 'rebinding before every processor use; managed arms use the processor the cache returned for this zone; '
                'cache look-up returns a bound processor and its index stays in range; cache-valid flag discipline in '
-               'init()/setZoneInfo()/isFilled(); cache key == tested year == filled year; Python cache key is not left set on a '
+               'init()/setZoneInfo()/isFilled(); no cache state outside that discipline (a memo in a look-up that a re-bind does not clear); '
+               'cache key == tested year == filled year; Python cache key is not left set on a '
                'raising path and every accumulated attribute is reset on a refill; abbreviation buffers do not keep bytes of an '
                'earlier zone or year',
     'not_decided': 'history dependence through any other channel than these mechanisms',
